@@ -71,7 +71,7 @@ def oracle_c07(case, obs, res):
                 exc = c.get("exc")
                 res.fail(
                     "transient_state_after_call",
-                    f"{c['do']}() {c['outcome']}ed ({type(exc).__name__ if exc is not None else 'ok'}) with state {st!r}",
+                    f"{c['do']}() {'raised' if c['outcome'] == 'raise' else 'returned'} ({type(exc).__name__ if exc is not None else 'ok'}) with state {st!r}",
                     **F(call=c["do"], state_after=st),
                 )
     if obs.probe is not None:
